@@ -9,8 +9,19 @@ from .model import AnalysisError
 
 class FlowMixin:
     # ---------------------------------------------------------------- loops
+    def _loop_dup(self, st, fr, seen, tag):
+        lk = getattr(self.model, "loop_key", None)
+        if lk is None:
+            return False
+        k = lk(self, st, fr)  # iteration counts are deliberately not part of the key: a state seen before is a fixpoint
+        if k in seen:
+            return True
+        seen.add(k)
+        return False
+
     def st_While(self, n, st, fr):
         out = []
+        seen_keys = set()
         work = [(st, 0, 0)]  # state, symbolic iterations, total iterations
         while work:
             s, nsym, ntot = work.pop()
@@ -34,6 +45,8 @@ class FlowMixin:
                 self.event(s1, fr, "loop-iter", n, ntot)
                 for kind, s2, v in self.exec_block(n.body, s1, fr):
                     if kind in ("next", "continue"):
+                        if self._loop_dup(s2, fr, seen_keys, (nsym, ntot)):
+                            continue
                         work.append((s2, nsym + (1 if (forked or self._is_true(n.test)) else 0), ntot + 1))
                     elif kind == "break":
                         self.event(s2, fr, "loop-break", n, ntot)
@@ -65,6 +78,19 @@ class FlowMixin:
             return [Const(b) for b in v.parts[0][0][1]]
         if isinstance(v, Const) and isinstance(v.v, (tuple, list, str, bytes)):
             return [self.lift(x, st) for x in v.v]
+        if isinstance(v, Bytes):
+            n = const_of(norm(v.length()))
+            if isinstance(n, int) and 0 <= n <= 64:
+                items, k = [], 0
+                for tag, ln in v.parts:
+                    c = const_of(norm(ln))
+                    for j in range(c):
+                        if tag[0] == "const":
+                            items.append(Const(tag[1][j]))
+                        else:
+                            items.append(Sym(("byteof", repr(tag)[:80], j), "int", rng=(0, 255)))
+                        k += 1
+                return items
         if isinstance(v, Sym) and v.ty == "range":
             a = v.attrs
             lo, hi, step = const_of(a["lo"]), const_of(a["hi"]), const_of(a["step"])
@@ -124,6 +150,7 @@ class FlowMixin:
 
     def st_For(self, n, st, fr):
         out = []
+        seen_keys = set()
         for s0, itv in self.ev(n.iter, st, fr):
             if isinstance(itv, Raised):
                 out.append(("raise", s0, itv))
@@ -176,6 +203,8 @@ class FlowMixin:
                             continue
                         for kind, s3, v in self.exec_block(n.body, s2, fr):
                             if kind in ("next", "continue"):
+                                if self._loop_dup(s3, fr, seen_keys, k):
+                                    continue
                                 nxt.append(s3)
                             elif kind == "break":
                                 self.event(s3, fr, "loop-break", n, k)
